@@ -1,5 +1,7 @@
 import Vflow.Proofs.AllocIpfix
 import Vflow.Proofs.AllocV9
+import Vflow.Proofs.LinearIpfix
+import Vflow.Proofs.LinearV9
 /-!
 # C02 (model part, IPFIX and NetFlow v9) — termination with the supplied fuel, record bound
 
@@ -8,8 +10,11 @@ record loop (`setLoop`).  The theorems say that this is always enough — the mo
 `fuel`, i.e. (through the differential correspondence) the Go decoder terminates on every datagram,
 for every content of the template cache — that the number of decoded records is bounded by the
 datagram length, and that templates and records cannot have more fields than a bound `K` on the
-cached templates' sizes and a quarter of the datagram length (allocation bound: total decoded fields
-≤ `bs.length * K`).  Not covered: the octets held by the decoded values (each value is a slice of the
+cached templates' sizes and a quarter of the datagram length (product bound: total decoded fields
+≤ `bs.length * K`), and that the product is due to the zero-length field specifiers alone (finding K4): the
+number of decoded fields is at most `bs.length + records × Z` — `Z` the largest number of zero-length
+specifiers of a template in force during the decode — and at most `bs.length` when no template has such a
+specifier (`*_record_fields_le_octets`, `*_fields_linear`, `*_fields_le_octets`).  Not covered: the octets held by the decoded values (each value is a slice of the
 datagram; no theorem here).  All statements quantify over every cache `c`, every exporter address `addr` and
 every octet string `bs`.
 -/
@@ -66,6 +71,57 @@ theorem ipfix_alloc_bound (c : Cache) (addr bs : Bytes) (K : Nat)
   have h2 := ipfix_record_bound c addr bs
   exact Nat.le_trans h1 (Nat.mul_le_mul_right K h2)
 
+/-- **C02 per record, linear (IPFIX; finding K4)**: a decoded data record has at most as many fields as it
+consumed octets of the datagram, plus `zeroSpecs tr` — the number of specifiers of length 0 of its template
+(scope and ordinary ones).  Unconditional: every specifier whose length is not 0 consumes at least one octet (a
+fixed length `n ≥ 1` reads `n` octets; the variable-length marker 65535 reads at least its one-octet length
+prefix, for every element type since the F23 repair); a specifier of length 0 is decoded — an entry with an
+empty value — without consuming anything, which is K4. -/
+theorem ipfix_record_fields_le_octets (tr : Template) (r r' : Rd) (fs : Record)
+    (h : Ipfix.decodeData tr r = (.ok fs, r')) :
+    fs.length ≤ (r'.cnt - r.cnt) + zeroSpecs tr :=
+  Ipfix.decodeData_lin h
+
+/-- **C02 allocation bound, linear (IPFIX; finding K4)**: let `Z` bound the number of zero-length field
+specifiers (`zeroSpecs`) of every template that is in force at some point of the decode: every template of the
+cache before the datagram (`hc`) and every template record or options template record that parses at some
+offset of the datagram (`hP`; the reader is always the suffix of the datagram at its own offset, so these
+include every template the decode inserts).  Then the total number of decoded fields is at most the number of
+octets of the datagram plus `Z` per decoded record, hence at most `bs.length * (1 + Z)`, and every template of
+the cache afterwards has at most `Z` zero-length specifiers (the statement composes over a sequence of
+datagrams).  The term `records × Z` is exactly finding K4 (R short records of a template with Z zero-length
+specifiers cost R × Z entries); it cannot be dropped, see `exK4Ipfix` below. -/
+theorem ipfix_fields_linear (c : Cache) (addr bs : Bytes) (Z : Nat)
+    (hc : ∀ e ∈ c, zeroSpecs e.2 ≤ Z)
+    (hP : ∀ k t r', k ≤ bs.length →
+      (Ipfix.parseTpl ⟨bs.drop k, k⟩ = (.ok t, r') ∨ Ipfix.parseOptTpl ⟨bs.drop k, k⟩ = (.ok t, r')) →
+      zeroSpecs t ≤ Z) :
+    ((Ipfix.recordsOf (Ipfix.decode c addr bs).1).map List.length).sum
+      ≤ bs.length + (Ipfix.recordsOf (Ipfix.decode c addr bs).1).length * Z ∧
+    ((Ipfix.recordsOf (Ipfix.decode c addr bs).1).map List.length).sum ≤ bs.length * (1 + Z) ∧
+    (∀ e ∈ (Ipfix.decode c addr bs).2, zeroSpecs e.2 ≤ Z) := by
+  have h := Ipfix.decode_linear c addr bs Z hc hP
+  have h2 := ipfix_record_bound c addr bs
+  refine ⟨h.2, ?_, h.1⟩
+  have h3 := Nat.mul_le_mul_right Z h2
+  have h4 := h.2
+  simp only [fieldSum] at h4
+  rw [Nat.mul_add, Nat.mul_one]
+  omega
+
+/-- **C02, no zero-length specifier (IPFIX)**: the case `Z = 0` of `ipfix_fields_linear` — when no cached
+template and no template record of the datagram has a field specifier of length 0 (finding K4 out of the way),
+the number of decoded fields is at most the number of octets of the datagram. -/
+theorem ipfix_fields_le_octets (c : Cache) (addr bs : Bytes)
+    (hc : ∀ e ∈ c, zeroSpecs e.2 = 0)
+    (hP : ∀ k t r', k ≤ bs.length →
+      (Ipfix.parseTpl ⟨bs.drop k, k⟩ = (.ok t, r') ∨ Ipfix.parseOptTpl ⟨bs.drop k, k⟩ = (.ok t, r')) →
+      zeroSpecs t = 0) :
+    ((Ipfix.recordsOf (Ipfix.decode c addr bs).1).map List.length).sum ≤ bs.length := by
+  have h := (ipfix_fields_linear c addr bs 0 (fun e he => Nat.le_of_eq (hc e he))
+    (fun k t r' hk hp => Nat.le_of_eq (hP k t r' hk hp))).1
+  simpa using h
+
 /-! ## NetFlow v9 -/
 
 /-- **C02 termination (NetFlow v9)**: the fuel supplied by `decode` always suffices. -/
@@ -108,6 +164,51 @@ theorem v9_alloc_bound (c : Cache) (addr bs : Bytes) (K : Nat)
   have h2 := v9_record_bound c addr bs
   exact Nat.le_trans h1 (Nat.mul_le_mul_right K h2)
 
+/-- **C02 per record, linear (NetFlow v9; finding K4)**: a decoded data record has at most as many fields as it
+consumed octets of the datagram, plus `zeroSpecs tr` — the number of specifiers of length 0 of its template.
+Unconditional: a specifier of length `n` reads exactly `n` octets (NetFlow v9 has no variable-length fields);
+one of length 0 is decoded — an entry with an empty value — without consuming anything, which is K4. -/
+theorem v9_record_fields_le_octets (tr : Template) (r r' : Rd) (fs : Record)
+    (h : V9.decodeData tr r = (.ok fs, r')) :
+    fs.length ≤ (r'.cnt - r.cnt) + zeroSpecs tr :=
+  V9.decodeData_lin h
+
+/-- **C02 allocation bound, linear (NetFlow v9; finding K4)**, as `ipfix_fields_linear`: `Z` bounds the number
+of zero-length field specifiers (`zeroSpecs`) of every template in force at some point of the decode — those of
+the cache before the datagram (`hc`) and every template / options template record that parses at some offset
+of the datagram (`hP`).  Then decoded fields ≤ octets + `Z` per decoded record ≤ `bs.length * (1 + Z)`, and the
+cache afterwards satisfies the same bound.  The term `records × Z` is exactly finding K4, see `exK4V9`. -/
+theorem v9_fields_linear (c : Cache) (addr bs : Bytes) (Z : Nat)
+    (hc : ∀ e ∈ c, zeroSpecs e.2 ≤ Z)
+    (hP : ∀ k t r', k ≤ bs.length →
+      (V9.parseTpl ⟨bs.drop k, k⟩ = (.ok t, r') ∨ V9.parseOptTpl ⟨bs.drop k, k⟩ = (.ok t, r')) →
+      zeroSpecs t ≤ Z) :
+    ((V9.recordsOf (V9.decode c addr bs).1).map List.length).sum
+      ≤ bs.length + (V9.recordsOf (V9.decode c addr bs).1).length * Z ∧
+    ((V9.recordsOf (V9.decode c addr bs).1).map List.length).sum ≤ bs.length * (1 + Z) ∧
+    (∀ e ∈ (V9.decode c addr bs).2, zeroSpecs e.2 ≤ Z) := by
+  have h := V9.decode_linear c addr bs Z hc hP
+  have h2 := v9_record_bound c addr bs
+  refine ⟨h.2, ?_, h.1⟩
+  have h3 := Nat.mul_le_mul_right Z h2
+  have h4 := h.2
+  simp only [fieldSum] at h4
+  rw [Nat.mul_add, Nat.mul_one]
+  omega
+
+/-- **C02, no zero-length specifier (NetFlow v9)**: the case `Z = 0` of `v9_fields_linear` — when no cached
+template and no template record of the datagram has a field specifier of length 0 (finding K4 out of the way),
+the number of decoded fields is at most the number of octets of the datagram. -/
+theorem v9_fields_le_octets (c : Cache) (addr bs : Bytes)
+    (hc : ∀ e ∈ c, zeroSpecs e.2 = 0)
+    (hP : ∀ k t r', k ≤ bs.length →
+      (V9.parseTpl ⟨bs.drop k, k⟩ = (.ok t, r') ∨ V9.parseOptTpl ⟨bs.drop k, k⟩ = (.ok t, r')) →
+      zeroSpecs t = 0) :
+    ((V9.recordsOf (V9.decode c addr bs).1).map List.length).sum ≤ bs.length := by
+  have h := (v9_fields_linear c addr bs 0 (fun e he => Nat.le_of_eq (hc e he))
+    (fun k t r' hk hp => Nat.le_of_eq (hP k t r' hk hp))).1
+  simpa using h
+
 /-! ## Non-vacuity: the zero-length-record datagrams (the F2 hang before the repair)
 
 A cached template whose records occupy no octets: the record loop ends with the non-fatal `zeroRec`
@@ -134,5 +235,82 @@ def exDgIpfix : Bytes :=
 
 set_option maxRecDepth 100000 in
 example : (Ipfix.decode exCacheIpfix exAddr exDgIpfix).1 = .ok ([10,28,1,2,3], [], [.zeroRec]) := by rfl
+
+/-! ## Non-vacuity of the linear bounds, and the K4 instance that shows the zero-length term is needed -/
+
+/-- IPFIX, no zero-length specifier anywhere: template 256 (one 2-octet field) is cached; the datagram (60
+octets) announces template 257 (two 4-octet fields), then carries two records of 257 and two of 256 -/
+def exLinCacheIpfix : Cache := Cache.insert [] exAddr 256 ⟨256, 1, 0, [], [⟨1, 2, 0⟩]⟩
+def exLinDgIpfix : Bytes :=
+  [0,10,0,60, 1,2,3,4, 5,6,7,8, 9,10,11,12] ++
+  [0,2, 0,16, 1,1, 0,2, 0,1,0,4, 0,2,0,4] ++
+  [1,1, 0,20, 1,2,3,4, 5,6,7,8, 1,2,3,4, 5,6,7,8] ++
+  [1,0, 0,8, 0,1, 0,2]
+
+/-- the hypotheses of `ipfix_fields_le_octets` hold for it … -/
+theorem exLinIpfix_hc : ∀ e ∈ exLinCacheIpfix, zeroSpecs e.2 = 0 := by decide
+theorem exLinIpfix_hP : ∀ k t r', k ≤ exLinDgIpfix.length →
+    (Ipfix.parseTpl ⟨exLinDgIpfix.drop k, k⟩ = (.ok t, r') ∨
+     Ipfix.parseOptTpl ⟨exLinDgIpfix.drop k, k⟩ = (.ok t, r')) → zeroSpecs t = 0 := by
+  intro k t r' hk hp
+  exact Nat.le_zero.mp (Ipfix.TplZ.of_check (bs := exLinDgIpfix) (Z := 0) (by decide +kernel) k t r' hk hp)
+
+/-- … and the conclusion is about a decode that does produce records: 6 fields in 4 records from 60 octets -/
+example : ((Ipfix.recordsOf (Ipfix.decode exLinCacheIpfix exAddr exLinDgIpfix).1).map List.length) = [2, 2, 1, 1] ∧
+    exLinDgIpfix.length = 60 := by decide +kernel
+example : ((Ipfix.recordsOf (Ipfix.decode exLinCacheIpfix exAddr exLinDgIpfix).1).map List.length).sum ≤ 60 :=
+  ipfix_fields_le_octets _ _ _ exLinIpfix_hc exLinIpfix_hP
+
+/-- **K4 (IPFIX)**: a cached template with seven zero-length specifiers and one 1-octet specifier; eight
+1-octet records ⇒ 64 decoded fields from a 28-octet datagram.  `Z = 7`: the linear bound gives
+`28 + 8 × 7 = 84`; without the zero-length term (`≤ 28`) the statement would be false. -/
+def exK4Tpl : Template :=
+  ⟨256, 8, 0, [], [⟨1,0,0⟩, ⟨1,0,0⟩, ⟨1,0,0⟩, ⟨1,0,0⟩, ⟨1,0,0⟩, ⟨1,0,0⟩, ⟨1,0,0⟩, ⟨4,1,0⟩]⟩
+def exK4CacheIpfix : Cache := Cache.insert [] exAddr 256 exK4Tpl
+def exK4Ipfix : Bytes :=
+  [0,10,0,28, 1,2,3,4, 5,6,7,8, 9,10,11,12] ++ [1,0, 0,12, 1,2,3,4,5,6,7,8]
+
+example : zeroSpecs exK4Tpl = 7 := by decide
+example : ((Ipfix.recordsOf (Ipfix.decode exK4CacheIpfix exAddr exK4Ipfix).1).map List.length).sum = 64 ∧
+    (Ipfix.recordsOf (Ipfix.decode exK4CacheIpfix exAddr exK4Ipfix).1).length = 8 ∧
+    exK4Ipfix.length = 28 := by decide +kernel
+example : ((Ipfix.recordsOf (Ipfix.decode exK4CacheIpfix exAddr exK4Ipfix).1).map List.length).sum
+    ≤ exK4Ipfix.length + (Ipfix.recordsOf (Ipfix.decode exK4CacheIpfix exAddr exK4Ipfix).1).length * 7 :=
+  (ipfix_fields_linear exK4CacheIpfix exAddr exK4Ipfix 7 (by decide)
+    (Ipfix.TplZ.of_check (by decide +kernel))).1
+
+/-- NetFlow v9, no zero-length specifier anywhere (64 octets; same shape as `exLinDgIpfix`) -/
+def exLinCacheV9 : Cache := Cache.insert [] exAddr 256 ⟨256, 1, 0, [], [⟨1, 2, 0⟩]⟩
+def exLinDgV9 : Bytes :=
+  [0,9,0,3, 1,2,3,4, 5,6,7,8, 9,10,11,12, 13,14,15,16] ++
+  [0,0, 0,16, 1,1, 0,2, 0,1,0,4, 0,2,0,4] ++
+  [1,1, 0,20, 1,2,3,4, 5,6,7,8, 1,2,3,4, 5,6,7,8] ++
+  [1,0, 0,8, 0,1, 0,2]
+
+theorem exLinV9_hc : ∀ e ∈ exLinCacheV9, zeroSpecs e.2 = 0 := by decide
+theorem exLinV9_hP : ∀ k t r', k ≤ exLinDgV9.length →
+    (V9.parseTpl ⟨exLinDgV9.drop k, k⟩ = (.ok t, r') ∨
+     V9.parseOptTpl ⟨exLinDgV9.drop k, k⟩ = (.ok t, r')) → zeroSpecs t = 0 := by
+  intro k t r' hk hp
+  exact Nat.le_zero.mp (V9.TplZ.of_check (bs := exLinDgV9) (Z := 0) (by decide +kernel) k t r' hk hp)
+
+example : ((V9.recordsOf (V9.decode exLinCacheV9 exAddr exLinDgV9).1).map List.length) = [2, 2, 1, 1] ∧
+    exLinDgV9.length = 64 := by decide +kernel
+example : ((V9.recordsOf (V9.decode exLinCacheV9 exAddr exLinDgV9).1).map List.length).sum ≤ 64 :=
+  v9_fields_le_octets _ _ _ exLinV9_hc exLinV9_hP
+
+/-- **K4 (NetFlow v9)**: the same template, eight 1-octet records ⇒ 64 decoded fields from a 32-octet
+datagram; the linear bound with `Z = 7` gives `32 + 8 × 7 = 88` -/
+def exK4CacheV9 : Cache := Cache.insert [] exAddr 256 exK4Tpl
+def exK4V9 : Bytes :=
+  [0,9,0,1, 1,2,3,4, 5,6,7,8, 9,10,11,12, 13,14,15,16] ++ [1,0, 0,12, 1,2,3,4,5,6,7,8]
+
+example : ((V9.recordsOf (V9.decode exK4CacheV9 exAddr exK4V9).1).map List.length).sum = 64 ∧
+    (V9.recordsOf (V9.decode exK4CacheV9 exAddr exK4V9).1).length = 8 ∧
+    exK4V9.length = 32 := by decide +kernel
+example : ((V9.recordsOf (V9.decode exK4CacheV9 exAddr exK4V9).1).map List.length).sum
+    ≤ exK4V9.length + (V9.recordsOf (V9.decode exK4CacheV9 exAddr exK4V9).1).length * 7 :=
+  (v9_fields_linear exK4CacheV9 exAddr exK4V9 7 (by decide)
+    (V9.TplZ.of_check (by decide +kernel))).1
 
 end Vflow.C02Flow
